@@ -165,6 +165,10 @@ ObsEnd(o, res, rest) ==
         ok == res = "ok"
         b == (IF ok /\ \E n \in o.touched \cap own : o.files[n].uns # <<>>
               THEN {"AckOnlyAfterSync"} ELSE {})
+             \* the events of a batch reported as written went to exactly one file OF THE SET: a
+             \* file that is in the directory when the call returns (not one the call itself -
+             \* its own retention - has removed again, whatever order the names sort in)
+             \cup (IF ok /\ o.evs # <<>> /\ o.touched \cap own = {} THEN {"OneFilePerBatch"} ELSE {})
              \cup (IF ok /\ o.created # {} /\ ~o.retFault /\ Cardinality(own) > o.maxFiles
                    THEN {"Retained"} ELSE {})
              \cup (IF res = "retry" /\ ~RetryWhole(o, rest) THEN {"RetryIsWhole"} ELSE {})
